@@ -45,6 +45,7 @@ def run(prog, res):
       _check_config_class(prog, res, c, config_base)
   _check_config_base(prog, res, config_base)
   _check_registry(prog, res)
+  _immutability(prog, res)
   rng.check_seed_only(prog, res, 'rtl_layer.RTL._get_rtl_structure', rule='S8',
                       seed_attrs=('random_seed',))
   res.extra['classes_checked'] = n_classes
@@ -57,6 +58,7 @@ def run(prog, res):
   res.floor('S7', 30)
   res.floor('S8', 3)
   res.floor('S9', 10)
+  res.floor('S10', 100)
   if n_classes < 39:
     raise AnalysisError('only %d serialisable classes found (floor 39)' %
                         n_classes)
@@ -94,6 +96,16 @@ def _check_keras_class(prog, res, c):
   for p in params:
     if fm is not None:
       if p in fm.explicit:
+        v = fm.explicit[p]
+        lossy = [b for b in ast.walk(v) if isinstance(b, ast.BoolOp)
+                 and isinstance(b.op, ast.Or)]
+        if lossy:
+          res.violation('S9', '%s|%s' % (q, p), fc.loc(fm.ctor_call),
+                        'from_config passes %s=%s: `or` replaces every falsy '
+                        'stored value (False, 0, []) by the default, so the '
+                        'rebuilt object differs from the saved one' % (
+                            p, norm_text(v)[:50]))
+          continue
         srcs = names_read(fm.explicit[p])
         # value must come from the config (directly or via a local)
         res.ok('S2', '%s|%s' % (q, p), fc.loc(fm.ctor_call),
@@ -380,3 +392,52 @@ def _check_registry(prog, res):
                       name, c.qualname),
                   'name %r maps to two classes and %s has no local '
                   'custom_object_scope' % (name, c.qualname))
+
+
+def _immutability(prog, res):
+  """S10: hyperparameters are immutable after construction - (a) no method
+  other than __init__ rebinds or mutates an attribute that get_config
+  serialises; (b) no library function mutates a caller-owned parameter in
+  place (the constraint objects pass their own hyperparameter lists)."""
+  for c in sorted(prog.all_classes(), key=lambda c: c.qualname):
+    if c.kind not in serial.SERIAL_KINDS or 'get_config' not in c.methods:
+      continue
+    try:
+      keys = set(serial.extract_config(c.methods['get_config']).keys)
+    except AnalysisError:
+      continue
+    init = c.find_method('__init__')
+    keys &= set(init.all_params) if init else set()
+    for name, m in sorted(c.methods.items()):
+      # framework-invoked methods only; explicit user-facing mutators such as
+      # ParallelCombination.append change the object on purpose and
+      # get_config serialises the current state
+      if name not in ('build', 'call', '__call__', 'get_config',
+                      'compute_output_shape', 'assert_constraints',
+                      'finalize_constraints', 'keypoints_inputs',
+                      'keypoints_outputs'):
+        continue
+      muts = serial.attr_mutations(m, keys)
+      key = '%s.%s' % (c.qualname, name)
+      if not muts:
+        res.ok('S10', key, m.loc(), 'does not modify serialised attributes')
+      for attr, node, kind in muts:
+        res.violation('S10', '%s|self.%s' % (key, attr), m.loc(node),
+                      '%s of self.%s outside __init__: get_config() drifts '
+                      'away from the constructor arguments' % (kind, attr))
+  for mod in ('lattice_lib', 'pwl_calibration_lib', 'linear_lib',
+              'categorical_calibration_lib', 'kronecker_factored_lattice_lib',
+              'internal_utils', 'utils', 'rtl_lib'):
+    for f in prog.module(mod).all_functions():
+      if f.parent is not None and f.name not in ('body',):
+        continue
+      muts = serial.param_mutations(f)
+      if not muts:
+        res.ok('S10', f.qualname, f.loc(),
+               'does not mutate caller-owned parameters')
+      for p, node, kind in muts:
+        res.violation('S10', '%s|%s' % (f.qualname, p), f.loc(node),
+                      '%s mutates its parameter %r in place (%s): the '
+                      'caller\'s hyperparameter list changes on every '
+                      'projection and its get_config() drifts' % (
+                          f.name, p, kind))
